@@ -152,7 +152,7 @@ R3_EXCEPTIONS = {
 }
 
 
-def r3_transition_discipline(ctx, rid='C05.R3'):
+def r3_transition_discipline(ctx, rid='C05.R3', only_event=None, text=None):
     from .. import transition
     r = ctx.rule(rid, 'SUMM', 'transition discipline: no entry point returns with a stream state change that did not pass Counts::transition_after')
     F = ctx.facts
@@ -177,6 +177,8 @@ def r3_transition_discipline(ctx, rid='C05.R3'):
         else:
             r.ok('entry|' + e, F.fns[e].file, 'no path returns with a pending state change' if e in D.cands else 'no state-changing event reachable')
     for (fn, ev), es in sorted(culprits.items()):
+        if only_event and not only_event(F, fn, ev):
+            continue
         f = F.fns.get(fn)
         chain = D.explain(es[0])
         r.bad('site|%s|%s' % (fn, ev), f.file if f else '',
